@@ -284,7 +284,13 @@ func init() {
 		}
 		return &Check{ID: "C16", Scenarios: []Scenario{
 			mk("spawnsync-histories", false, map[string]int{"quick": 2, "thorough": 2}, maxLen),
-			mk("single-calls-deeper-schedules", false, map[string]int{"quick": 3, "thorough": 5}, func(string) int { return 1 }),
+			// thorough only (histories of length 0 in quick: none)
+			mk("single-calls-deeper-schedules", false, map[string]int{"quick": 3, "thorough": 5}, func(tier string) int {
+				if tier == "thorough" {
+					return 1
+				}
+				return 0
+			}),
 			mk("inspected-histories", true, map[string]int{"quick": 1, "thorough": 2}, maxLen),
 			mk("longer-histories-default-schedule", false, map[string]int{"quick": 0, "thorough": 0}, func(tier string) int {
 				if tier == "thorough" {
